@@ -1320,27 +1320,47 @@ def _extract_call_argument(
 
 
 def _strip_inline_comment(text: str) -> str:
-    """Remove a trailing comment from ``text`` while respecting string literals."""
+    """Remove a trailing comment from ``text`` while respecting string literals.
 
+    Runs of blanks after the indentation and outside string literals are squeezed to
+    one character: they carry no meaning, and the statement patterns backtrack
+    cubically on them.
+    """
+
+    out: List[str] = []
     in_single = False
     in_double = False
     escaped = False
-    for index, char in enumerate(text):
+    seen_code = False
+    prev_blank = False
+    for char in text:
         if escaped:
             escaped = False
+            out.append(char)
+            prev_blank = False
             continue
         if char == "\\":
             escaped = True
+            seen_code = True
+            out.append(char)
+            prev_blank = False
             continue
         if char == "'" and not in_double:
             in_single = not in_single
-            continue
-        if char == '"' and not in_single:
+        elif char == '"' and not in_single:
             in_double = not in_double
+        elif char == "#" and not in_single and not in_double:
+            return "".join(out).rstrip()
+        if char.isspace() and seen_code and not in_single and not in_double:
+            if not prev_blank:
+                out.append(char)
+            prev_blank = True
             continue
-        if char == "#" and not in_single and not in_double:
-            return text[:index].rstrip()
-    return text
+        if not char.isspace():
+            seen_code = True
+        prev_blank = False
+        out.append(char)
+    return "".join(out)
 
 
 def _annotation_to_type_label(annotation: Optional[ast.AST]) -> str:
